@@ -523,6 +523,11 @@ pub fn gen_string(rng: &mut Rng, cfg: &GenCfg, name: bool) -> String {
     let ascii_only = rng.chance(1, 2);
     while s.len() < len {
         let rest = len - s.len();
+        if rest >= 3 && rng.chance(1, 200) {
+            // the byte sequence of an object end inside a string (00 00 09)
+            s.push_str("\0\0\t");
+            continue;
+        }
         let c: char = if ascii_only || rest < 2 {
             match rng.below(40) {
                 0 => '\0',
@@ -568,6 +573,11 @@ pub fn gen_value(rng: &mut Rng, cfg: &GenCfg, depth: usize) -> V {
                 1 => 1,
                 _ => rng.usize(1, cfg.max_children),
             };
+            if rng.chance(1, 80) {
+                // many properties with short distinct names (counts around powers of two)
+                let n = *rng.pick(&[255usize, 256, 257, 1024, 1025, 5000]);
+                return V::Obj((0..n).map(|i| (format!("p{}", i), if i % 3 == 0 { V::Null } else { V::Num(i as u64) })).collect());
+            }
             let mut props: Vec<(String, V)> = Vec::new();
             for _ in 0..n {
                 let name = gen_string(rng, cfg, true);
